@@ -228,6 +228,28 @@ var mutants = []Mutant{
 	{"C09", "date-lost-to-strip", "internal/responsestorerer.go", [][2]string{{"\tFixDateHeader(resp.Header, respTime)\n", ""}}, "C09.17", "D84"},
 	{"C16", "late-304-merged", "roundtripper.go", [][2]string{{"if resp.StatusCode == http.StatusNotModified && !sentValidatorsOf(req, stored.Data.Header) {", "if false {"}}, "C16.15", "D85"},
 	{"C08", "late-304-compares-nothing", "helpers.go", [][2]string{{"\treturn req.Header.Get(\"If-None-Match\") == storedHdr.Get(\"ETag\") &&\n\t\treq.Header.Get(\"If-Modified-Since\") == storedHdr.Get(\"Last-Modified\")", "\treturn req != nil && storedHdr != nil"}}, "C08.13", "D85: the comparison replaced by a nil test"},
+	{"C01", "max-stale-zero-is-unlimited", "internal/freshness.go", [][2]string{{"\t\tif reqMaxStaleStr == \"\" {\n\t\t\tmaxStale = maxDuration // accept any staleness\n\t\t} else if reqMaxStale, valid := reqMaxStaleStr.Value(); valid && reqMaxStale >= 0 {\n\t\t\tmaxStale = reqMaxStale\n\t\t}\n", "\t\treqMaxStale, _ := reqMaxStaleStr.Value()\n\t\tmaxStale = cmp.Or(max(reqMaxStale, 0), maxDuration)\n"}}, "C01.24", "wave 7"},
+	{"C03", "port-zeros-trimmed", "internal/helpers.go", [][2]string{{"\t\thost, port = host[:colon], host[colon+1:]\n", "\t\thost, port = host[:colon], strings.TrimLeft(host[colon+1:], \"0\")\n"}}, "C03.13", "wave 7"},
+	{"C04", "credentials-cut-at-second-blank", "internal/normalization.go", [][2]string{{"\t\tparts := strings.SplitN(value, \" \", 2)\n\t\tif len(parts) == 2 {", "\t\tparts := strings.Fields(value)\n\t\tif len(parts) >= 2 {"}}, "C04.18", "wave 7"},
+	{"C04", "all-empty-values-get-the-fixed-id", "internal/normalization.go", [][2]string{{"\tif len(varyHeaders) == 0 {\n", "\tunvaried := true\n\tfor _, v := range varyHeaders {\n\t\tunvaried = unvaried && v == \"\"\n\t}\n\tif unvaried {\n"}}, "C04.19", "wave 7"},
+	{"C05", "known-length-keeps-its-framing", "internal/entry.go", [][2]string{{"\tif len(head.Trailer) > 0 && len(head.TransferEncoding) == 0 {", "\tif len(head.Trailer) > 0 && head.ContentLength < 0 {"}}, "C05.16", "wave 7"},
+	{"C07", "location-parsed-as-request-uri", "internal/cacheinvalidator.go", [][2]string{{"\t\tlocURL, err := url.Parse(loc)\n", "\t\tlocURL, err := url.ParseRequestURI(loc)\n"}}, "C07.15", "wave 7"},
+	{"C08", "date-only-without-etag", "helpers.go", [][2]string{{"\t\treq2.Header.Set(\"If-None-Match\", etag)\n\t}\n\tif lastModified != \"\" {", "\t\treq2.Header.Set(\"If-None-Match\", etag)\n\t} else if lastModified != \"\" {"}}, "C08.17", "wave 7"},
+	{"C08", "filter-stops-at-duplicate", "internal/responsestorerer.go", [][2]string{{"\t\t\tif i != refIndex && sameVariant(ref) {\n\t\t\t\tcontinue\n", "\t\t\tif i != refIndex && sameVariant(ref) {\n\t\t\t\tbreak\n"}}, "C08.18", "wave 7"},
+	{"C19", "filter-stops-at-duplicate", "internal/responsestorerer.go", [][2]string{{"\t\t\tif i != refIndex && sameVariant(ref) {\n\t\t\t\tcontinue\n", "\t\t\tif i != refIndex && sameVariant(ref) {\n\t\t\t\tbreak\n"}}, "C19.18", "wave 7"},
+	{"C09", "min-fresh-against-max-age", "internal/freshness.go", [][2]string{{"\t\t(usefulLife-currentAge.Value) < reqMinFresh {", "\t\t(maxAge-currentAge.Value) < reqMinFresh {"}}, "C09.22", "wave 7"},
+	{"C12", "htab-not-trimmed", "internal/helpers.go", [][2]string{{"\t\"net/textproto\"\n", ""}, {"p := textproto.TrimString(part.String())\n\t\t\t\tif len(p) > 0 {\n\t\t\t\t\tif !yield(p)", "p := strings.Trim(part.String(), \" \")\n\t\t\t\tif len(p) > 0 {\n\t\t\t\t\tif !yield(p)"}, {"p := textproto.TrimString(part.String())\n\t\t\tif len(p) > 0 {\n\t\t\t\t_ = yield(p)", "p := strings.Trim(part.String(), \" \")\n\t\t\tif len(p) > 0 {\n\t\t\t\t_ = yield(p)"}}, "C12.19", "wave 7"},
+	{"C13", "zero-lifetime-has-no-window", "internal/cacheabilityevaluator.go", [][2]string{{"\t\tage := SaturatingAdd(freshness.Age.Value, cce.clock.Since(freshness.Age.Timestamp))\n", "\t\tif freshness.UsefulLife <= 0 {\n\t\t\treturn false\n\t\t}\n\t\tage := SaturatingAdd(freshness.Age.Value, cce.clock.Since(freshness.Age.Timestamp))\n"}}, "C13.17", "wave 7"},
+	{"C14", "skipdir-for-a-file", "store/fscache/fscache.go", [][2]string{{"\t\t\treturn nil // a value that is being written, or was left behind by a crash\n", "\t\t\treturn fs.SkipDir // a value that is being written, or was left behind by a crash\n"}}, "C14.22", "wave 7"},
+	{"C14", "ciphertext-minimum-from-block-size", "store/fscache/encrypt.go", [][2]string{{"\tif len(data) < e.gcm.NonceSize() {", "\tif len(data) < aes.BlockSize+e.gcm.Overhead() {"}}, "C14.23", "wave 7"},
+	{"C17", "ciphertext-minimum-from-block-size", "store/fscache/encrypt.go", [][2]string{{"\tif len(data) < e.gcm.NonceSize() {", "\tif len(data) < aes.BlockSize+e.gcm.Overhead() {"}}, "C17.13", "wave 7"},
+	{"C17", "constructor-error-shadowed", "store/fscache/fscache.go", [][2]string{{"\t\tc.enc, err = newAESGCMEncryptor(rand.Reader, key)\n", "\t\tif enc, err := newAESGCMEncryptor(rand.Reader, key); err == nil {\n\t\t\tc.enc = enc\n\t\t}\n"}}, "C17.14", "wave 7"},
+	{"C19", "search-for-negative-position-only", "internal/responsestorerer.go", [][2]string{{"\tif refIndex < 0 || refIndex >= len(refs) {\n\t\t// No usable position", "\tif refIndex < 0 {\n\t\t// No usable position"}}, "C19.16", "wave 7"},
+	{"C19", "list-restarted-after-entry-fault", "roundtripper.go", [][2]string{{"\t\treturn r.handleCacheMiss(req, urlKey, refs, refIndex)\n", "\t\treturn r.handleCacheMiss(req, urlKey, nil, -1)\n"}}, "C19.17", "wave 7"},
+	{"C20", "stale-answer-needs-live-context", "roundtripper.go", [][2]string{{"\tif swr, swrValid := ccResp.StaleWhileRevalidate(); freshness.IsStale && swrValid {", "\tif err := req.Context().Err(); err != nil {\n\t\treturn nil, err\n\t}\n\tif swr, swrValid := ccResp.StaleWhileRevalidate(); freshness.IsStale && swrValid {"}}, "C20.10", "wave 7"},
+	{"C16", "validators-compared-weakly", "helpers.go", [][2]string{{"\treturn req.Header.Get(\"If-None-Match\") == storedHdr.Get(\"ETag\") &&", "\treturn string(bytes.TrimPrefix([]byte(req.Header.Get(\"If-None-Match\")), []byte(\"W/\"))) == string(bytes.TrimPrefix([]byte(storedHdr.Get(\"ETag\")), []byte(\"W/\"))) &&"}}, "C16.15", "wave 7"},
+	{"C10", "fresh-map-into-the-callers-request", "helpers.go", [][2]string{{"\t\treq2.Header = make(http.Header) // Clone of a nil header is nil; the caller sets fields on it", "\t\treq.Header = make(http.Header) // Clone of a nil header is nil; the caller sets fields on it"}}, "C10.13", "wave 7"},
+	{"C06", "dump-error-overwritten", "internal/entry.go", [][2]string{{"\tif err != nil {\n\t\treturn nil, fmt.Errorf(\"failed to marshal response: %w\", err)\n\t}\n\n\tvar buf bytes.Buffer\n", "\n\tvar buf bytes.Buffer\n"}}, "C06.15", "wave 7"},
 	{"C10", "dropped-304-body-unguarded", "roundtripper.go", [][2]string{{"\t\t\tif resp.Body != nil { // a hand-written upstream may leave it nil\n\t\t\t\t_ = resp.Body.Close()\n\t\t\t}\n", "\t\t\t_ = resp.Body.Close()\n"}}, "C10.24", "D87"},
 	{"C14", "listing-by-path-name", "store/fscache/fscache.go", [][2]string{{"\tc.dw = dirWalkerFunc(func(dir string, fn fs.WalkDirFunc) error {\n\t\treturn fs.WalkDir(c.root.FS(), \".\", func(name string, d fs.DirEntry, err error) error {\n\t\t\treturn fn(filepath.Join(dir, filepath.FromSlash(name)), d, err)\n\t\t})\n\t})\n", "\tc.dw = dirWalkerFunc(filepath.WalkDir)\n"}}, "C14.21", "D88"},
 	{"C19", "vary-name-as-sent", "internal/normalization.go", [][2]string{{"\t\t\tif !yield(storableValue(name), value) {", "\t\t\tif !yield(name, value) {"}}, "C19.15", "D89"},
